@@ -372,3 +372,84 @@ Example C09_token_history_examples :
   fst (run_hist_p None cfg [tA] p0 [u EOpen 900; u EOpen 1001]) = [ok; refused].
 Proof. vm_compute. repeat split; reflexivity. Qed.
 Print Assumptions C09_token_history_examples.
+
+(* =====================================================================================
+   THE OTHER REQUEST SITES OF THE PUBLIC API: put_chunk, is_complete, mark_complete.  They go through the same retry
+   loop with the default `process` and are not streamed; S3 answers a PUT - and the GET of the empty `complete` marker -
+   without a body, so no answer can lose part of its body and the loop is the counting spec.
+   ===================================================================================== *)
+
+(* ---- put_chunk: for every configuration and every fault sequence the chunk is stored (Ok) iff the read faults (reset /
+   close / stall before the answer), the status faults and their sum fit the budgets, else S3ServerGlitch; permanent
+   statuses classified at once; exactly the requests of the counting spec ---- *)
+Theorem C09_put_chunk : forall cfg fs,
+  wf_retry (c_retry cfg) = true -> Forall (fun o => wf_outcome o = true) fs ->
+  put_chunk cfg O fs = spec_request cfg O fs.
+Proof. exact put_chunk_is_spec. Qed.
+Print Assumptions C09_put_chunk.
+
+(* answers WITH a body of len bytes to a request that is not streamed (bucket listing; hypothetically a PUT or marker
+   answer with content): the counting spec under the guard that no answer loses part of its body.  What is missing:
+   a body fault after retries inside the adapter is retried with the Retry object from before the request
+   (Example C09_listing_budget_not_carried is the refutation of the unguarded statement). *)
+Theorem C09_unstreamed_request_partial : forall cfg len fs,
+  wf_retry (c_retry cfg) = true -> Forall (fun o => wf_outcome o = true) fs ->
+  forallb (no_body_fault len) fs = true ->
+  request cfg PListing len [] fs = spec_request cfg len fs.
+Proof. exact request_nb_is_spec. Qed.
+Print Assumptions C09_unstreamed_request_partial.
+
+(* ---- is_complete: True on a 200 answer, False on a 404 AND when the transient faults do not fit the budget (both
+   exceptions derive from ChunkNotFound: table re-translated from the source), every other failure is raised; the
+   requests of the counting spec; no bucket listing is ever requested (a 404 is not checked against the bucket) ---- *)
+Theorem C09_is_complete : forall cfg fs,
+  wf_retry (c_retry cfg) = true -> Forall (fun o => wf_outcome o = true) fs ->
+  is_complete cfg O fs = (spec_is_complete cfg O fs, spec_requests (c_forcelist cfg) O (c_retry cfg) fs).
+Proof. exact is_complete_is_spec. Qed.
+Print Assumptions C09_is_complete.
+
+Theorem C09_is_complete_classes :
+  caught_by_is_complete NotFound = true /\ caught_by_is_complete Glitch = true /\
+  caught_by_is_complete Auth = false /\ caught_by_is_complete Unavail = false /\
+  caught_by_is_complete InvalidTok = false /\ caught_by_is_complete Raw = false.
+Proof. exact is_complete_table. Qed.
+Print Assumptions C09_is_complete_classes.
+
+(* ---- mark_complete: the marker object is written only after the bucket request succeeded or was answered 409 (the
+   bucket exists already); a failed bucket request is reported as it is and nothing else is sent; the marker request is
+   the counting spec with the full budget on what is left of the fault sequence ---- *)
+Theorem C09_mark_complete_bucket_failed : forall cfg fs e,
+  fst (request cfg PListing O s3_create_bucket_ignored fs) = Err e ->
+  mark_complete cfg fs = (Err e, snd (request cfg PListing O s3_create_bucket_ignored fs), O).
+Proof. exact mark_complete_bucket_failed. Qed.
+Print Assumptions C09_mark_complete_bucket_failed.
+
+Theorem C09_mark_complete_bucket_ok : forall cfg fs d,
+  wf_retry (c_retry cfg) = true -> Forall (fun o => wf_outcome o = true) fs ->
+  fst (request cfg PListing O s3_create_bucket_ignored fs) = Ok d ->
+  let nb := snd (request cfg PListing O s3_create_bucket_ignored fs) in
+  mark_complete cfg fs =
+  (spec_result (c_forcelist cfg) O (c_retry cfg) (skipn nb fs), nb,
+   spec_requests (c_forcelist cfg) O (c_retry cfg) (skipn nb fs)).
+Proof. exact mark_complete_bucket_ok. Qed.
+Print Assumptions C09_mark_complete_bucket_ok.
+
+Theorem C09_create_bucket_409 : forall cfg rest, memZ 409 (c_forcelist cfg) = false ->
+  request cfg PListing O s3_create_bucket_ignored (Status 409 :: rest) = (Ok O, 1%nat).
+Proof. exact create_bucket_409. Qed.
+Print Assumptions C09_create_bucket_409.
+
+Example C09_other_sites_examples :
+  let cfg := default_config 2 2 in
+  put_chunk cfg O [Status 503; HFault HReset] = (Ok O, 3%nat) /\
+  put_chunk cfg O [HFault HReset; HFault HClose; HFault HStall] = (Err Glitch, 3%nat) /\
+  put_chunk cfg O [Status 403; Status 503] = (Err Auth, 1%nat) /\
+  is_complete cfg O [Status 404] = (CFalse, 1%nat) /\
+  is_complete cfg O [Status 503; Status 500] = (CTrue, 3%nat) /\
+  is_complete cfg O [HFault HReset; HFault HReset; HFault HReset] = (CFalse, 3%nat) /\
+  is_complete cfg O [Status 401] = (CRaise Auth, 1%nat) /\
+  mark_complete cfg [Status 409; Status 503] = (Ok O, 1%nat, 2%nat) /\
+  mark_complete cfg [Status 503; Status 403; Status 503] = (Err Auth, 2%nat, 0%nat) /\
+  mark_complete cfg [Status 400] = (Err Unavail, 1%nat, 0%nat).
+Proof. vm_compute. repeat split; reflexivity. Qed.
+Print Assumptions C09_other_sites_examples.
